@@ -204,10 +204,16 @@ def expect_UnsafeLinkBuffer_Len : List String := [
 def expect_UnsafeLinkBuffer_recalLen : List String := [
   "atomic.AddInt64(&b.length,int64(delta))"]
 
+/-- after fix 6b01730 the untrack callback is registered before the activity check and the Store is ordered
+against it by a per-connection mutex; the lifecycle model's acceptor steps (IsActive, then onConnect) are unchanged -/
 def expect_server_onAccept : List String := [
-  "nconn.IsActive()",
+  "mu.Lock()",
   "s.connections.Delete(fd)",
+  "mu.Unlock()",
+  "nconn.IsActive()",
+  "mu.Lock()",
   "s.connections.Store(fd,nconn)",
+  "mu.Unlock()",
   "nconn.onConnect()"]
 
 end Netpoll.Conn.LifeSync
